@@ -254,6 +254,7 @@ func init() {
 					}
 				}
 				ex.Explore()
+				noteDiverged(l, ex, "prefix")
 				l.Transitions += int64(ex.Points)
 				if len(digests) > 1 {
 					l.Outcome("outcome-depends-on-worker-schedule")
